@@ -44,7 +44,9 @@ func (a *AlterConfigsResponse) decode(pd packetDecoder, version int16) error {
 		return err
 	}
 
-	a.Resources = make([]*AlterConfigsResourceResponse, responseCount)
+	if responseCount >= 0 {
+		a.Resources = make([]*AlterConfigsResourceResponse, responseCount)
+	}
 
 	for i := range a.Resources {
 		a.Resources[i] = new(AlterConfigsResourceResponse)
